@@ -31,11 +31,12 @@ def make_stub(fp, nodes, edges, source, sink):
     g.nodes = lambda: list(nodes)
     g.edges = lambda: list(edges)
 
-    class Stub:
-        pass
-    for name in ["_reconstruct_eulerian_walk", "_build_closed_walk_from_vertex",
-                 "_build_residual_graph_for_layer", "get_solution_walks"]:
-        setattr(Stub, name, getattr(W, name))
+    # a real subclass (class attributes and helper methods of the walk model stay reachable), constructed without
+    # running __init__ (no graph preprocessing, no solver)
+    class Stub(W):
+        def __init__(self):
+            pass
+    Stub.__abstractmethods__ = frozenset()
     s = Stub()
     s.G = g
     return s
@@ -133,52 +134,88 @@ def run_case(ctx, nodes, adj, suite, source="S", sink="T"):
 
 
 def run_glue_case(ctx, rng):
-    """get_solution_walks on an injected per-layer assignment (rounding, str keys, layers)"""
+    """get_solution_walks of a REAL model object (kFlowDecompCycles / kPathCoverCycles / kLeastAbsErrorsCycles, built by their
+    constructors, never solved) on an injected per-layer assignment: rounding of noisy values, str keys, layers, the edges
+    at the global source / sink, whatever object state the method reads"""
+    import networkx as nx
     fp = ctx.fp
     k = rng.randint(1, 3)
-    layers = []
-    nodes0, _ = gen_eulerian(rng, rng.randint(1, 5), 0, 0)
-    edge_order = None
-    sol = {}
-    all_edges = []
+    n_inner = rng.randint(1, 5)
     per_layer = []
+    simple = rng.random() < 0.3     # every multiplicity at most 1 (edge-simple walks that may still revisit vertices)
     for i in range(k):
         if rng.random() < 0.15:
             per_layer.append(Counter())
             continue
-        _, adj = gen_eulerian(rng, len(nodes0) - 2, rng.randint(0, 3), rng.randint(0, 6))
-        c = Counter((u, v) for u, l in adj.items() for v in l)
+        for _try in range(30 if simple else 1):
+            _, adj = gen_eulerian(rng, n_inner, rng.randint(0, 3), rng.randint(0, 6))
+            c = Counter((u, v) for u, l in adj.items() for v in l)
+            if max(c.values()) <= 1:
+                break
         per_layer.append(c)
+    inner = []
     for c in per_layer:
-        for e in c:
-            if e not in all_edges:
-                all_edges.append(e)
-    rng.shuffle(all_edges)
-    for i, c in enumerate(per_layer):
-        for e in all_edges:
-            m = c.get(e, 0)
-            noise = rng.choice([0, 0, 1e-7, -1e-7, 0.3, -0.3]) if m > 0 else rng.choice([0, 1e-9, 0.2])
-            sol[(e[0], e[1], i)] = m + noise
-    stub = make_stub(fp, nodes0, all_edges, "S", "T")
-    stub.k = k
-    stub.edge_vars_sol = dict(sol)
-    stub.edge_vars = {}
-    stub.solver = type('S', (), {'get_values': lambda self, v: dict(sol)})()
-    walks = stub.get_solution_walks()
-    ok = True
-    for i, c in enumerate(per_layer):
-        adj = {v: [] for v in nodes0}
-        for (u, v) in all_edges:
-            adj[u] += [v] * c.get((u, v), 0)
-        model = ctx.driver.call({"op": "euler", "adj": [[v, adj[v]] for v in nodes0], "source": "S", "sink": "T"})
-        inp = {"nodes": nodes0, "edges": all_edges, "layer": i, "values": {f"{a}|{b}": sol[(a, b, i)] for (a, b) in all_edges}}
-        ctx.rep.count("K1.get_solution_walks", inp, nontrivial=sum(c.values()) > 2, hist=["layer"])
+        for (u, v) in c:
+            if u != "S" and v != "T" and (u, v) not in inner:
+                inner.append((u, v))
+    starts = sorted({v for c in per_layer for (u, v) in c if u == "S"})
+    ends = sorted({u for c in per_layer for (u, v) in c if v == "T"})
+    if not inner or not starts or not ends:
+        ctx.rep.count("K1.get_solution_walks", ["skipped", k], nontrivial=False, hist=["no inner edge: skipped"])
+        return
+    rng.shuffle(inner)
+    H = nx.DiGraph()
+    for (u, v) in inner:
+        H.add_edge(u, v, flow=sum(c.get((u, v), 0) for c in per_layer))
+    for v in starts + ends:
+        H.add_node(v)
+    cls = rng.choice(["kFlowDecompCycles", "kPathCoverCycles", "kLeastAbsErrorsCycles"])
+    opts = {"optimize_with_safe_sequences": False, "optimize_with_safety_as_subset_constraints": False,
+            "optimize_with_max_safe_antichain_as_subset_constraints": False}
+    try:
+        if cls == "kPathCoverCycles":
+            m = fp.kPathCoverCycles(H, k=k, additional_starts=starts, additional_ends=ends, optimization_options=opts)
+        else:
+            m = getattr(fp, cls)(H, flow_attr="flow", k=k, weight_type=int, additional_starts=starts, additional_ends=ends,
+                                 optimization_options=opts)
+    except ValueError as e:
+        ctx.rep.count("K1.get_solution_walks", ["rejected", str(e)[:60]], nontrivial=False, hist=["constructor ValueError"])
+        return
+    src, snk = m.G.source, m.G.sink
+
+    def mult(u, v, i):
+        c = per_layer[i]
+        if u == src:
+            return c.get(("S", v), 0)
+        if v == snk:
+            return c.get((u, "T"), 0)
+        return c.get((u, v), 0)
+    sol = {}
+    for (u, v) in m.G.edges():
+        for i in range(k):
+            x = mult(u, v, i)
+            noise = rng.choice([0, 0, 1e-7, -1e-7, 0.3, -0.3]) if x > 0 else rng.choice([0, 1e-9, 0.2])
+            sol[(str(u), str(v), i)] = x + noise
+    m.edge_vars_sol = {}
+    m.solver.get_values = lambda _vars: dict(sol)
+    walks = m.get_solution_walks()
+    nodes = [str(v) for v in m.G.nodes()]
+    for i in range(k):
+        adj = {v: [] for v in nodes}
+        for (u, v) in m.G.edges():
+            adj[str(u)] += [str(v)] * mult(u, v, i)
+        model = ctx.driver.call({"op": "euler", "adj": [[v, adj[v]] for v in nodes], "source": str(src), "sink": str(snk)})
+        inp = {"cls": cls, "k": k, "inner_edges": [[u, v, H[u][v]["flow"]] for (u, v) in H.edges()], "starts": starts, "ends": ends,
+               "layer": i, "values": {f"{a}|{b}": sol[(a, b, i)] for (a, b, j) in sol if j == i},
+               "adj": [[v, adj[v]] for v in nodes], "nodes": nodes, "source": str(src), "sink": str(snk)}
+        ctx.rep.count("K1.get_solution_walks", inp, nontrivial=sum(len(l) for l in adj.values()) > 2,
+                      hist=["layer", cls] + (["all multiplicities <= 1"] if all(len(set(l)) == len(l) for l in adj.values()) else []))
         ctx.rep.cov["traces_validated_against_impl"] += 1
-        if list(walks[i]) != list(model["walk"]):
-            ctx.disagree("K1.get_solution_walks", inp, list(walks[i]), model["walk"])
+        if [str(x) for x in walks[i]] != list(model["walk"]):
+            ctx.disagree("K1.get_solution_walks", inp, [str(x) for x in walks[i]], model["walk"])
         ctx.rep.cov["oracle_evaluations"] += 1
-        if not oracle(adj, "S", "T", walks[i]):
-            ctx.violation(f"layer {i}: walk {walks[i]} does not realise the rounded multiplicities", inp,
+        if is_eulerian(adj, str(src), str(snk)) and not oracle(adj, str(src), str(snk), [str(x) for x in walks[i]]):
+            ctx.violation(f"{cls}.get_solution_walks, layer {i}: walk {walks[i]} does not realise the rounded multiplicities", inp,
                           site="get_solution_walks")
 
 
@@ -198,6 +235,11 @@ def run(ctx):
         inp, impl = run_case(ctx, nodes, adj, "K1.reconstruct")
         if it < 2:
             ctx.rep.sample({"input": inp, "walk_returned": list(impl)})
+    # long walks (hundreds of traversals on a handful of vertices): many closed walks hanging off one another, so that
+    # every splice shifts the positions of the vertices behind it
+    for it in range(ctx.n(60, 800)):
+        nodes, adj = gen_eulerian(rng, rng.randint(2, 4), rng.randint(4, 12), rng.randint(150, 420))
+        run_case(ctx, nodes, adj, "K1.long")
     # all-zero assignment
     nodes = ["S", "a", "T"]
     inp, impl = run_case(ctx, nodes, {v: [] for v in nodes}, "K1.zero")
@@ -226,6 +268,8 @@ def search(ctx):
             cands.append((inp["nodes"], {v: l for v, l in inp["adj"]}))
     for _ in range(20000):
         cands.append(gen_eulerian(rng, rng.randint(1, 6), rng.randint(0, 6), rng.randint(0, 15)))
+    for _ in range(400):
+        cands.append(gen_eulerian(rng, rng.randint(2, 4), rng.randint(4, 12), rng.randint(150, 420)))
     for nodes, adj in cands:
         if not is_eulerian(adj, "S", "T"):
             continue
